@@ -162,6 +162,10 @@ def run(tier: str) -> int:
                 for decoys in ((False, True) if d == dialects[fam][0] else (False,)):
                     env = execb.Env(qc[d])
                     q, excs = env.run(p["calls"], decoys=decoys)
+                    for eff in env.rejected_effects:
+                        rep.discrepancy([["rejected-call-changed-argument", eff["call"]["m"], eff["error"]]],
+                                        {"dialect": d, "program": p["calls"], "rejected_call": eff["call"], "sources_whose_alias_changed": eff["changed"]},
+                                        what="a call that was refused with an exception changed the alias of a table passed to it")
                     if decoys:
                         env.decoys(q)
                     rexc = ""
